@@ -241,6 +241,12 @@ def azimuthal_clause(cl, rng, n, replay):
             base = rng.uniform(0.8, 5)
             As.append(np.array([1 + 3 * np.exp(-(np.log(f / (base * np.exp(rng.normal(0, 0.2)))) / 0.25) ** 2) + 0.1 * np.abs(rng.normal(0, 1, 30)) for _ in range(k)]))
         nn, mi = float(rng.choice([1.0, 2.0])), int(rng.choice([1, 3, 50]))
+        if j % 2 == 1:
+            # (the cases with a history: every azimuth gets an outlier in a *different* window, so that the azimuths are certain to reject different windows)
+            nn = 1.0
+            for a_i, A in enumerate(As):
+                w = a_i % len(A)
+                A[w] = 1 + 3 * np.exp(-(np.log(f / (12.0 + a_i)) / 0.25) ** 2) + 0.1 * np.abs(rng.normal(0, 1, 30))
         try:
             wants = [reference_fdwra(f, A.copy(), (None, None), nn, mi, "lognormal", "lognormal") for A in As]
         except (ValueError, ZeroDivisionError):
